@@ -357,6 +357,16 @@ Section SigmaComplete.
       - cbn. tauto.
     Qed.
   End Cdi.
+
+  (** The first check of [verify_cdi]: threshold must equal the number of coefficient commitments. *)
+  Lemma threshold_mismatch_rejected {W1 R1 M1 Z1 W2 R2 M2 Z2 W3 R3 M3 Z3}
+      (p1 : sigma Chal W1 R1 M1 Z1) (p2 : sigma Chal W2 R2 M2 Z2) (p3 : list (sigma Chal W3 R3 M3 Z3))
+      (threshold ncoeff : nat) prefix pub encM proof rg sg :
+    threshold <> ncoeff ->
+    verify_cdi_shape Chal H chal bytes_eqb threshold ncoeff p1 p2 p3 prefix pub encM proof rg sg = false.
+  Proof.
+    intros Hne. unfold verify_cdi_shape. destruct (Nat.eqb_spec threshold ncoeff); [contradiction | reflexivity].
+  Qed.
 End SigmaComplete.
 
 (* ------------------------------------------------------------------------------------------ *)
